@@ -5,6 +5,8 @@ import verif
 
 def _key(r):
     n = sum(1 for i in r["ids"] if i.startswith(r["prefix"]))
+    if "intr" in r:
+        return "find-prefix/%s/%s" % (r["via"], r["err"])
     return "find-prefix/%s/%s-matches/%s" % (r["via"], "no" if n == 0 else ("one" if n == 1 else "several"), r["err"])
 
 
@@ -30,8 +32,9 @@ def run(ctx):
     order += [i for i in bad if i not in first][:60]
     for i in order[:200]:
         r = json.loads(lines[i - 1])
-        ctx.violate(_key(r), "%s: files %s, prefix %r -> result %r, outcome %s (Fn_FindPrefix!RecOK false)" % (
-            r["via"], [x[:6] + ".." + x[-2:] for x in r["ids"]], r["prefix"], r["res"], r["err"]), r)
+        ctx.violate(_key(r), "%s%s: files %s, prefix %r -> result %r, outcome %s (Fn_FindPrefix!RecOK false)" % (
+            r["via"], (" after %d entries" % r["intr"]) if "intr" in r else "",
+            [x[:18] + ".." + x[-2:] for x in r["ids"]], r["prefix"], r["res"], r["err"]), r)
     counters = dict(res1.get("counters", {}))
     for k, v in res2.get("counters", {}).items():
         counters["FindSnapshot_" + k] = v
@@ -41,6 +44,8 @@ def run(ctx):
            "exhaustive": ctx.thorough()}
     return verif.finish(ctx, "exploration", cov, [
         "oracle = Fn_FindPrefix.tla (unique textual prefix match, otherwise an error); TLC evaluates RecOK on every recorded call of the real restic.Find / data.FindSnapshot",
+        "a listing that is interrupted after k delivered entries (backend error, or the caller's context cancelled and the lister returning ctx.Err()) must make restic.Find return an error, never an ID: the set of files is unknown then",
+        "the memorized listing (restic.MemorizeList, used by SnapshotFilter.FindAll with explicit ids) must answer exactly like the live listing",
         "any error value counts as 'an error' (its kind is not demanded); a panic is not an error return",
         "prefixes with upper-case hex digits are not generated (the statement leaves open whether case matters: Find compares text, a full upper-case ID parses to the same ID)",
         "IDs are SHA-256 values; the all-zero ID (restic's internal 'null ID' sentinel) is not used as a file name",
